@@ -58,6 +58,11 @@ CHECKS.update({
             "Every configuration of the grid is fitted (tiny seeded fits with a memory phase) or loaded from hand-written numbers, saved, re-loaded, saved again (three generations): population variables equal their prior modes, derived values and trajectories agree with the saved parameters (float64 closed form), the reloaded model has equal class, hyperparameters, parameters and trajectories, and the file is reproduced byte for byte.",
             "Grid alphabets only; float32 rounding and the documented 0-d vs (1,) noise_std shape are tolerated on the first reload only."),
 })
+CHECKS.update({
+    "C06": ("exploration", "exhaustive metamorphic enumeration: model kind x cohort shape x every missing pattern x fill value written under the mask x extra padding, through the real state / statistics / updates / fit / personalizations",
+            "For every cohort and missing pattern of the bounded space the dataset tensors are rewritten with each fill value (0, finite, huge, NaN, +-inf) at masked positions and padded visits and with 0-2 extra padding visits; likelihood terms, statistics, parameter updates, trajectories at real visits, scripted fits and personalizations must be bit-identical (same shapes) or rounding-identical (other padding), counts and noise must equal a float64 reference over observed entries, and results must not depend on which other entries are missing.",
+            "Cohorts of 2-3 individuals with <= 3 visits; personalization / fit part on the smallest shapes; LME and constant models not covered."),
+})
 NOT_APPLICABLE = {}
 
 def main():
